@@ -52,6 +52,13 @@ def replay_helper(sp):
     }
     if name not in cases:
         return dict(confirmed=None, note="no replay for helper %s" % name)
+    if sp.get("frame"):
+        # FRAME clause: the operands (and their derivative fields) are unchanged after the call
+        keep = [(x, np.array(x, dtype=float).copy()) for x in (u, v, w, A, B, G, H)]
+        cases[name][0]()
+        changed = [n for n, (x, c) in zip("u v w A B G H".split(), keep) if not np.array_equal(np.asarray(x, dtype=float), c)]
+        return dict(confirmed=bool(changed), observed="operands modified in place: %s" % changed, required="no operand is modified",
+                    inputs=dict(A=a_.tolist(), u=u_.tolist()), oracle="helper '%s' (%s variant) called on arrays that are compared with copies taken before the call" % (name, variant))
     got = np.asarray(cases[name][0](), dtype=float)
     got = got[..., 0, 0] if got.ndim >= 2 else got
     req = np.asarray(cases[name][1](), dtype=float)
